@@ -43,6 +43,7 @@ class FakePool:
         FakePool.current = self
         self.on_put = None  # hook(cmd)
         self.on_drain = None
+        self.on_process = None
     # -- API used by cylc
     def put_command(self, ctx, bad_hosts=None, callback=None, callback_args=None, callback_255=None):
         self.seq += 1
@@ -65,6 +66,8 @@ class FakePool:
         # pool for shutdown the harness answers everything still pending
         if self.closed and self.pending and self.on_drain:
             self.on_drain()
+        elif self.on_process:
+            self.on_process()
     def is_not_done(self):
         return bool(self.pending)
     def set_stopping(self):
@@ -132,7 +135,7 @@ class Job:
         return (self.point, self.name, self.submit)
     @property
     def final(self):
-        return self.phase in ("succeeded", "failed")
+        return self.phase in ("succeeded", "failed", "vanished")
 
 class JobWorld:
     """The true state of every job that was ever launched. Outcomes are a deterministic function
@@ -169,6 +172,11 @@ class JobWorld:
             j.phase = "succeeded"
         elif s.startswith("failed"):
             j.phase = "failed"
+        elif s == "vanish":
+            # the job is evicted from the batch queue before it starts: nothing is sent, only a poll finds out
+            j.phase = "vanished"
+            j.script = []
+            return None
         return s
     def kill(self, key):
         j = self.jobs.get(key)
@@ -191,6 +199,9 @@ class JobWorld:
             ctx = {"job_runner_name": "background", "job_runner_exit_polled": 1, "time_submit_exit": ts}
             return f"[TASK JOB SUMMARY]{ts}|{d}|{json.dumps(ctx)}\n", []
         ctx = {"job_runner_name": "background", "job_id": str(1000 + len(d)), "time_submit_exit": ts}
+        if j.phase == "vanished":
+            ctx = {"job_runner_name": "background", "job_runner_exit_polled": 1, "time_submit_exit": ts}
+            return f"[TASK JOB SUMMARY]{ts}|{d}|{json.dumps(ctx)}\n", []
         if j.phase == "submitted":
             ctx["job_runner_exit_polled"] = 0
         elif j.phase == "running":
